@@ -181,7 +181,16 @@ int runFatal(int argc, char **argv)
 
 // ---------------------------------------------------------------------------------- shutdown
 std::atomic<bool> g_stopRacers { false };
-std::atomic<long long> g_nextId { 0 };
+std::atomic<int> g_prodCounter { 0 };
+// ids carry the producer: id = producer * 10^9 + per-producer sequence number
+long long nextId()
+{
+    thread_local int prod = g_prodCounter.fetch_add(1);
+    thread_local long long seq = 0;
+    return (long long)prod * 1000000000LL + seq++;
+}
+long g_racerPauseUs = 0;        // VERIF_RACER_PAUSE_US: pause between two messages of a racing producer
+long g_racerBudget = 2000000000; // VERIF_RACER_BUDGET: messages a racing producer sends at most
 
 void logOne(long long id)
 {
@@ -219,6 +228,8 @@ int runShutdown(int argc, char **argv)
     const int cycles = atoi(argv[9]);
     const QString dir = QString::fromLocal8Bit(argv[10]);
     vhook::configureFromString(getenv("VERIF_NOISE"));
+    if (const char *e = getenv("VERIF_RACER_PAUSE_US")) g_racerPauseUs = atol(e);
+    if (const char *e = getenv("VERIF_RACER_BUDGET")) g_racerBudget = atol(e);
 
     auto sink = QSharedPointer<RecSink>::create(delayUs);
 
@@ -227,6 +238,16 @@ int runShutdown(int argc, char **argv)
         if (connectBrackets && qApp)
             QObject::connect(qApp, &QCoreApplication::aboutToQuit, qApp, []() { ev('S', 0); }, Qt::DirectConnection);
         if (cfg == "fluent") {
+            gQtLogger.moveToOwnThread();
+            gQtLogger << sink;
+            gQtLogger.installMessageHandler();
+        } else if (cfg == "pattern" || cfg == "json") {
+            // formatters whose helpers keep function-local static tables
+            if (cfg == "pattern")
+                gQtLogger.format(QStringLiteral("%{time} %{type:>8} %{category} %{message}"));
+            else
+                gQtLogger.formatToJson(true);
+            gQtLogger.sendToFile(dir + QStringLiteral("/app.log"));
             gQtLogger.moveToOwnThread();
             gQtLogger << sink;
             gQtLogger.installMessageHandler();
@@ -254,10 +275,18 @@ int runShutdown(int argc, char **argv)
     std::vector<std::thread> racerThreads;
     auto startRacers = [&]() {
         for (int r = 0; r < racers; ++r)
-            racerThreads.emplace_back([]() {
+            racerThreads.emplace_back([r]() {
+                long left = g_racerBudget;
                 while (!g_stopRacers.load()) {
-                    logOne(g_nextId.fetch_add(1));
-                    if ((g_nextId.load() & 7) == 0) std::this_thread::yield();
+                    if (left-- <= 0) {
+                        ev('X', r); // budget exhausted: this producer stops on its own
+                        break;
+                    }
+                    logOne(nextId());
+                    if (g_racerPauseUs > 0)
+                        spinUs(g_racerPauseUs);
+                    else if ((left & 7) == 0)
+                        std::this_thread::yield();
                 }
             });
     };
@@ -267,10 +296,10 @@ int runShutdown(int argc, char **argv)
         racerThreads.clear();
     };
     auto fill = [&]() {
-        for (long i = 0; i < backlog; ++i) logOne(g_nextId.fetch_add(1));
+        for (long i = 0; i < backlog; ++i) logOne(nextId());
     };
     auto postStop = [&]() {
-        for (int i = 0; i < post; ++i) logOne(g_nextId.fetch_add(1));
+        for (int i = 0; i < post; ++i) logOne(nextId());
     };
 
     if (path == "P1") { // exec() + quit() -> aboutToQuit
@@ -293,7 +322,10 @@ int runShutdown(int argc, char **argv)
         QCoreApplication app(argc, argv);
         setupSingleton(false);
         for (int c = 0; c < (cycles > 0 ? cycles : 1); ++c) {
-            if (c > 0) gQtLogger.moveToOwnThread();
+            if (c > 0) {
+                ev('M', c);
+                gQtLogger.moveToOwnThread();
+            }
             if (c == 0) startRacers();
             fill();
             ev('S', c);
@@ -348,9 +380,13 @@ int runShutdown(int argc, char **argv)
             // caller's error, not a path of the property)
             for (int r = 0; r < racers; ++r)
                 ts.emplace_back([&]() {
-                    while (!stop.load()) processOne(*h, g_nextId.fetch_add(1));
+                    long left = g_racerBudget;
+                    while (!stop.load() && left-- > 0) {
+                        processOne(*h, nextId());
+                        spinUs(g_racerPauseUs);
+                    }
                 });
-            for (long i = 0; i < backlog; ++i) processOne(*h, g_nextId.fetch_add(1));
+            for (long i = 0; i < backlog; ++i) processOne(*h, nextId());
             stop = true;
             for (auto &t : ts) t.join();
             ev('S', c);
@@ -376,12 +412,43 @@ int runShutdown(int argc, char **argv)
         evs("main-return");
         return 0;
     }
+    if (path == "P9") { // two threads stop the same logger at the same time (e.g. explicit reset racing a destructor / quit)
+        QCoreApplication app(argc, argv);
+        setupSingleton(false);
+        for (int c = 0; c < (cycles > 0 ? cycles : 1); ++c) {
+            if (c > 0) {
+                ev('M', c);
+                gQtLogger.moveToOwnThread();
+            }
+            if (c == 0) startRacers();
+            fill();
+            std::atomic<int> go { 0 };
+            std::thread other([&]() {
+                go.fetch_add(1);
+                while (go.load() < 2) { }
+                ev('S', 2 * c + 1);
+                gQtLogger.resetOwnThread();
+                ev('E', 2 * c + 1);
+            });
+            go.fetch_add(1);
+            while (go.load() < 2) { }
+            ev('S', 2 * c);
+            gQtLogger.resetOwnThread();
+            ev('E', 2 * c);
+            other.join();
+            postStop();
+        }
+        stopRacers();
+        evs("main-return");
+        return 0;
+    }
     if (path == "P8") { // move/reset cycles with producers running throughout
         QCoreApplication app(argc, argv);
         gQtLogger << sink;
         gQtLogger.installMessageHandler();
         startRacers();
         for (int c = 0; c < cycles; ++c) {
+            ev('M', c);
             gQtLogger.moveToOwnThread();
             fill();
             ev('S', c);
